@@ -148,6 +148,18 @@ func verifyFuncPass(P *Program, c *Contract, maxPaths int, touched map[string]bo
 		argTypes = append(argTypes, p.Type())
 	}
 	env := fv.bindContract(c, st, args, argTypes)
+	// captured variables of a closure under contract: each is a pre-existing cell with arbitrary (well-typed) content;
+	// the contract refers to the captured variable by its name, meaning its value at entry
+	var bindings []Value
+	for i, fvar := range fn.FreeVars {
+		cell := Obj(IntLit(int64(-3000000 - i)))
+		et := fvar.Type().(*types.Pointer).Elem()
+		val := st.heap.load(et, cell)
+		fv.assumeType(st, val, et)
+		env.vars[fvar.Name()] = TV{val, et}
+		bindings = append(bindings, Scalar{cell})
+		st.priv = append(st.priv, cell) // no callee can reach the variables the closure captured
+	}
 	fv.entryEnv = env.vars
 	for _, ax := range P.Specs.Axioms {
 		if ax.Pkg == c.Pkg && c.Mode == ModeInt {
@@ -166,7 +178,7 @@ func verifyFuncPass(P *Program, c *Contract, maxPaths int, touched map[string]bo
 	st.mods = append(st.mods, eenv.evalAllExcept(c.ModAll)...)
 	fv.entry.mods = st.mods
 	res.Vacuity = &Obligation{Func: fv.name, Kind: "requires-satisfiable", Name: fv.name + " / requires-satisfiable", Assump: append([]*Term(nil), st.pc...), Goal: nil, Pos: c.Pos}
-	outs := fv.execBody(fr, st, args, nil)
+	outs := fv.execBody(fr, st, args, bindings)
 	results := fn.Signature.Results()
 	if len(c.Results) != results.Len() {
 		fv.fail("binding failure: contract %s declares %d results, function has %d", c.Key, len(c.Results), results.Len())
